@@ -248,7 +248,13 @@ func main() {
 		}
 		d := defs[p1[i].di]
 		var pts [][2]float64
-		for _, q := range ref1[i].Points {
+		for k, q := range ref1[i].Points {
+			if math.Abs(p1[i].req.Pts[k][1]) == 90 {
+				// the way back from a pole is not compared: Albers' and the equidistant
+				// cone's latitude there is the arcsine of a number at 1, where one unit in
+				// the last place of the sine moves the answer by 0.1 mm in V8 and Go alike
+				continue
+			}
 			if q != nil {
 				pts = append(pts, *q)
 			}
@@ -389,7 +395,13 @@ func main() {
 			}
 			dx, dy := got[i][0]-want[0], got[i][1]-want[1]
 			if projected {
-				if math.Hypot(dx, dy)*tm > 1e-4 {
+				tol := 1e-4
+				if math.Abs(pl.req.Pts[i][1]) == 90 {
+					// the far pole of a cone lies 1e12 m and more away: half a unit in
+					// the tenth digit there
+					tol = math.Max(tol, 1e-10*math.Hypot(want[0], want[1])*tm)
+				}
+				if math.Hypot(dx, dy)*tm > tol {
 					sig := "vs-proj4js|" + class + "|differs-by-more-than-0.1mm"
 					if pl.kind == "geo->proj" && d.Option == "sphere" && (d.Proj == "tmerc" || d.Proj == "utm") {
 						// closed spherical form (Snyder 8-1, 8-3), without false origin as in the original
@@ -458,6 +470,10 @@ func main() {
 				// of rounding; such positions are compared with proj4js only
 				continue
 			}
+			if math.Abs(pt[1]) == 90 {
+				// poles: compared with proj4js only (the far pole of a conformal cone is at infinity)
+				continue
+			}
 			var x, y float64
 			switch d.Proj {
 			case "merc":
@@ -476,6 +492,7 @@ func main() {
 			case "lcc":
 				l1 := pval(d.Params, "lat_1", 0) * r
 				x, y = projlib.LCCFwd(el, l1, pval(d.Params, "lat_2", l1/r)*r, lat0, lon0, lon, lat)
+				x, y = x*pval(d.Params, "k_0", 1), y*pval(d.Params, "k_0", 1)
 			case "aea":
 				l1 := pval(d.Params, "lat_1", 0) * r
 				x, y = projlib.AEAFwd(el, l1, pval(d.Params, "lat_2", l1/r)*r, lat0, lon0, lon, lat)
